@@ -19,7 +19,8 @@ PROFILE_SPARSE = gen.Profile(**{**PROFILE.__dict__, "p_nested": 0.8, "max_nested
 PROFILE_ASYNC = gen.Profile(**{**PROFILE.__dict__, "p_coro": 0.5, "drivers": ("facade", "loop"), "p_rtc_off": 0.0,
                                "p_write": 0.12})
 PROFILE_CHAIN = gen.Profile(**{**PROFILE.__dict__, "p_rtc_off": 0.5, "p_nested": 0.0, "p_raise": 0.0, "p_validator_raise": 0.0,
-                               "p_unknown_event": 0.05, "p_coro": 0.15, "drivers": ("sync", "facade", "loop"), "max_events": 5})
+                               "p_unknown_event": 0.05, "p_coro": 0.15, "p_sync_scn": 0.6, "drivers": ("sync", "facade", "loop"),
+                               "max_events": 5})
 
 
 def nontrivial(s, a, rt):
@@ -130,23 +131,25 @@ def run(ctx):
                             "provider, return pool None/0/''/[]/[1,2]/()/{}/str/float, internal/self/multi-event "
                             "transitions, both engines; non-trivial = an executed transition had >=2 contributing "
                             "callbacks or a single one returning None/a container")
-    engine_check(ctx, PROFILE, 700, 16000, nontrivial, monitor=c14_monitor, tag="C14s", mutate=lambda rng, s: (second_providers(rng, s), gen.late_listeners(rng, s)), share=0.4)
-    cov0 = dict(ctx.coverage)
-    engine_check(ctx, PROFILE_SPARSE, 350, 8000, nontrivial, monitor=c14_monitor, tag="C14n", expand=chained_variants, share=0.4)
-    cov1 = dict(ctx.coverage)
-    for k in ("evaluations", "distinct_nontrivial", "traces_validated_against_impl", "disagreements", "monitor_failures"):
-        cov1[k] = cov1.get(k, 0) + cov0.get(k, 0)
-    ctx.coverage["distribution_nested"] = ctx.coverage.get("distribution")
-    engine_check(ctx, PROFILE_ASYNC, 300, 8000, nontrivial, monitor=c14_monitor, tag="C14a", mutate=gen.late_listeners, share=0.5)
-    for k in ("evaluations", "distinct_nontrivial", "traces_validated_against_impl", "disagreements", "monitor_failures"):
-        ctx.coverage[k] = ctx.coverage.get(k, 0) + cov1.get(k, 0)
-    ctx.coverage["distribution_sync"] = cov1.get("distribution")
-    # events used as callbacks (`before="other_event"`): under rtc=False the callback's value — hence a part of the
-    # outer result — is the chained event's own result; under run-to-completion None (model: Act.retSend)
-    cov2 = dict(ctx.coverage)
-    engine_check(ctx, PROFILE_CHAIN, 260, 6000, gen.chain_nontrivial, tag="C14c", mutate=gen.plant_evrefs)
-    ctx.coverage["distribution_chain"] = ctx.coverage.get("distribution")
-    ctx.coverage["chain_scenarios"] = ctx.coverage.get("evaluations", 0)
-    for k in ("evaluations", "distinct_nontrivial", "traces_validated_against_impl", "disagreements", "monitor_failures"):
-        ctx.coverage[k] = ctx.coverage.get(k, 0) + cov2.get(k, 0)
-    ctx.coverage["distribution"] = cov2.get("distribution")
+    # four families, each with a share of what is left of the time budget; the chain family second: it is small, and the
+    # only one in which a callback's value is another event's result (`rtc=False`)
+    KEYS = ("evaluations", "distinct_nontrivial", "traces_validated_against_impl", "disagreements", "monitor_failures")
+    acc = dict.fromkeys(KEYS, 0)
+    fams = [
+        ("sync", PROFILE, 600, 16000, dict(monitor=c14_monitor, tag="C14s", share=0.35,
+                                           mutate=lambda rng, s: (second_providers(rng, s), gen.late_listeners(rng, s)))),
+        # events used as callbacks (`before="other_event"`): under rtc=False the callback's value — hence a part of the
+        # outer result — is the chained event's own result; under run-to-completion None (model: Act.retSend)
+        ("chain", PROFILE_CHAIN, 260, 6000, dict(tag="C14c", mutate=gen.plant_evrefs, share=0.3)),
+        ("nested", PROFILE_SPARSE, 300, 8000, dict(monitor=c14_monitor, tag="C14n", expand=chained_variants, share=0.5)),
+        ("async", PROFILE_ASYNC, 280, 8000, dict(monitor=c14_monitor, tag="C14a", mutate=gen.late_listeners)),
+    ]
+    for label, prof, target, cap, kw in fams:
+        engine_check(ctx, prof, target, cap, gen.chain_nontrivial if label == "chain" else nontrivial, **kw)
+        ctx.coverage["distribution_" + label] = ctx.coverage.get("distribution")
+        if label == "chain":
+            ctx.coverage["chain_scenarios"] = ctx.coverage.get("evaluations", 0)
+        for k in KEYS:
+            acc[k] += ctx.coverage.get(k, 0)
+    ctx.coverage.update(acc)
+    ctx.coverage["distribution"] = ctx.coverage.get("distribution_sync")
